@@ -286,3 +286,16 @@ Theorem C09_lossless_example :
     = [BoContinue; BoContinue; BoContinue; BoDeliver body].
 Proof. vm_compute. split; reflexivity. Qed.
 Print Assumptions C09_lossless_example.
+
+(* the client-side transfer state (lg_xmit of an upload, lg_crcv of a download) is kept while
+   the transfer makes progress, however long the whole transfer takes *)
+Theorem C09_state_kept_while_progress : forall wait l last, blk_tev_paced wait last l ->
+  fst (blk_timed_run wait true last l) = true.
+Proof. exact blk_timed_kept. Qed.
+Print Assumptions C09_state_kept_while_progress.
+
+(* a timer that only counts from the creation of the state cuts a paced transfer off *)
+Theorem C09_state_norefresh_refuted :
+  exists l, blk_tev_paced 93 0 l /\ fst (blk_timed_run_norefresh 93 true 0 l) = false.
+Proof. exact blk_timed_norefresh_refuted. Qed.
+Print Assumptions C09_state_norefresh_refuted.
